@@ -95,3 +95,57 @@ func VerifC04_v6_restate() {
 	}
 	verifAssert("openapi:schema-accepts-iff-server-accepts", verifSchemaAccepts(openapiDoc, "POST /restate", map[string]any{"body": body}) == ran)
 }
+
+// design v6, methods ra/rb/rc: Named.name has MaxLength(6); ra re-declares it
+// with MaxLength(4), rb with MinLength(2)+MaxLength(8), rc uses Named as it is.
+func VerifC04_v6_redeclared() {
+	name := nondetStringUpTo("name", 9)
+	for i := 0; i < len(name); i++ {
+		verifAssume(name[i] < 0x80) // one rune per byte
+	}
+	n := len(name)
+	method := nondetChoice("method", 3)
+	called := 0
+	endpoint := func(ctx context.Context, p any) (any, error) { called++; return nil, nil }
+	w := newRecWriter()
+	var valid bool
+	var op string
+	var parts map[string]any
+	switch method {
+	case 0:
+		b := &server.RaRequestBody{Name: &name}
+		dec := func(*http.Request) goahttp.Decoder {
+			return stubDecoder{func(v any) error { *(v.(*server.RaRequestBody)) = *b; return nil }}
+		}
+		server.NewRaHandler(endpoint, &stubMux{}, dec, recEncoder(), nil, nil).ServeHTTP(w, newRequest("POST", nil))
+		valid, op, parts = n <= 4, "POST /ra", map[string]any{"body": b}
+	case 1:
+		b := &server.RbRequestBody{Name: &name}
+		dec := func(*http.Request) goahttp.Decoder {
+			return stubDecoder{func(v any) error { *(v.(*server.RbRequestBody)) = *b; return nil }}
+		}
+		server.NewRbHandler(endpoint, &stubMux{}, dec, recEncoder(), nil, nil).ServeHTTP(w, newRequest("POST", nil))
+		valid, op, parts = n >= 2 && n <= 8, "POST /rb", map[string]any{"body": b}
+	default:
+		b := &server.RcRequestBody{Name: &name}
+		dec := func(*http.Request) goahttp.Decoder {
+			return stubDecoder{func(v any) error { *(v.(*server.RcRequestBody)) = *b; return nil }}
+		}
+		server.NewRcHandler(endpoint, &stubMux{}, dec, recEncoder(), nil, nil).ServeHTTP(w, newRequest("POST", nil))
+		valid, op, parts = n <= 6, "POST /rc", map[string]any{"body": b}
+	}
+	ran := called == 1
+	verifAssert("endpoint-runs-iff-request-valid", ran == valid)
+	if !ran {
+		verifAssert("rejected:exactly-one-400", w.nHeaders == 1 && w.status == http.StatusBadRequest)
+		verifAssert("rejected:names-a-violated-rule", errorName(w) == "invalid_length")
+	}
+	specOK := verifSchemaAccepts(openapiDoc, op, parts)
+	if method != 2 {
+		// known: the three bodies have the same shape and are documented by ONE
+		// schema (that of Named), whatever their own validations
+		verifAssert("openapi:schema-accepts-iff-server-accepts[same-shape-bodies-share-a-schema]", specOK == ran)
+	} else {
+		verifAssert("openapi:schema-accepts-iff-server-accepts", specOK == ran)
+	}
+}
